@@ -1,6 +1,7 @@
 """./check configuration for C14 (see verif_props.py)."""
 
-PROP = {'module': 'GolibsVerif.Theorems.C14',
+PROP = {'technique': 'Lean arithmetic proof of Duration.String against a model of time.Duration.String, host:port round trip on models of net.Join/SplitHostPort, URL round trips under pointwise contracts; differential tie',
+ 'module': 'GolibsVerif.Theorems.C14',
  'namespace': 'GolibsVerif.C14',
  'rule': "cases: all boundary durations (0, +-1ns, +-(1s-1ns), multiples of s/m/h, +-2^63 edges) and random int64; hosts with ':', '%', "
          'empty, brackets, arbitrary bytes x uint16 ports; host:port texts (malformed stream); prefix/address texts; URLs from a grammar '
